@@ -185,6 +185,9 @@ def run(ctx, bt):
     from .. import gen_engine as _G
     run_engine_protocol(ctx, bt, ctx.scale(25, 400), [Monitor(ctx)], FOOT_FIELDS, None, spec_kwargs={"fi_tree": False},
                         spec_mutator=_G.carry_tree, corr_name="step[C03]:carry-under-market-value-root")
+    # flows consumed by an update, then a trade that leaves the tree stale when the clock moves
+    run_engine_protocol(ctx, bt, ctx.scale(25, 400), [Monitor(ctx)], FOOT_FIELDS, None,
+                        spec_mutator=_G.unclosed_trades, corr_name="step[C03]:trade-after-the-flow-was-consumed")
     run_programs(ctx, bt, ctx.scale(70, 1500), check_program)
     # three strategy levels with a commission schedule given at the top
     from .. import whole_run as _W
